@@ -252,6 +252,14 @@ class Super:
         self.owner = owner
 
 
+class Native:
+    """A Python callable provided by the interpreter / a domain."""
+
+    def __init__(self, fn, name=None):
+        self.fn = fn
+        self.name = name or getattr(fn, "__name__", "native")
+
+
 class Both:
     """Truth value of a condition that the abstract domain cannot decide."""
 
@@ -325,6 +333,9 @@ class Interp:
 
     def abs_iter(self, v):
         raise Unsupported(f"iteration over an undecidable value: {v!r}")
+
+    def abs_range(self, args):
+        raise Unsupported("range over a non-concrete bound")
 
     def join(self, a, b):
         if a is b:
@@ -498,9 +509,9 @@ class Interp:
             return o.value if name == "value" else o.name
         if isinstance(o, _NATIVE_TYPES):
             if isinstance(o, dict) and name in ("update", "items", "get", "keys", "values", "pop", "setdefault", "copy"):
-                return ("native", getattr(o, name))
+                return Native(getattr(o, name))
             if hasattr(o, name):
-                return ("native", getattr(o, name))
+                return Native(getattr(o, name))
             raise PyRaise("AttributeError", f"{type(o).__name__}.{name}")
         if isinstance(o, Obj):
             if name in o.attrs:
@@ -536,6 +547,12 @@ class Interp:
             if name == "__doc__":
                 return ast.get_docstring(o.func.node) or ""
             raise Unsupported(f"attribute {name} of function {o}")
+        if isinstance(o, Native):
+            if name in ("__name__", "__qualname__"):
+                return o.name
+            if name == "__doc__":
+                return ""
+            raise Unsupported(f"attribute {name} of native callable")
         if isinstance(o, Closure):
             if name in o.attrs:
                 return o.attrs[name]
@@ -555,18 +572,18 @@ class Interp:
         if name in ("items", "keys", "values", "get", "__contains__"):
             # through the class' own __iter__/__getitem__ when defined
             if name == "get":
-                return ("native", data.get)
+                return Native(data.get)
             it = self.ix.method(o.cls, "__iter__")
             gi = self.ix.method(o.cls, "__getitem__")
             if it is None and gi is None:
-                return ("native", getattr(data, name))
+                return Native(getattr(data, name))
             keys = list(self.call_function(FuncRef(it, o), [], {})) if it else list(data)
             if name == "keys":
-                return ("native", lambda: keys)
+                return Native(lambda: keys)
             get = (lambda k: self.call_function(FuncRef(gi, o), [k], {})) if gi else data.__getitem__
             if name == "values":
-                return ("native", lambda: [get(k) for k in keys])
-            return ("native", lambda: [(k, get(k)) for k in keys])
+                return Native(lambda: [get(k) for k in keys])
+            return Native(lambda: [(k, get(k)) for k in keys])
         raise PyRaise("AttributeError", f"{o.cls[1]} has no attribute {name}")
 
     def _bind(self, owner: ClassKey, node, inst, clsref: ClsRef, name: str):
@@ -601,21 +618,21 @@ class Interp:
                     return ("udinit", inst)
                 if isinstance(inst, Obj) and self.is_dataclass(ck):
                     return ("dcinit", inst)
-                return ("native", lambda *a, **k: None)
+                return Native(lambda *a, **k: None)
             if isinstance(inst, Obj) and self._has_ext_base(ck, "UserDict"):
                 data = inst.attrs.setdefault("data", {})
                 if name == "__setitem__":
-                    return ("native", data.__setitem__)
+                    return Native(data.__setitem__)
                 if name == "__getitem__":
                     def _get(k):
                         if k not in data:
                             raise PyRaise("KeyError", repr(k))
                         return data[k]
-                    return ("native", _get)
+                    return Native(_get)
                 if name == "__len__":
-                    return ("native", data.__len__)
+                    return Native(data.__len__)
                 if name == "__iter__":
-                    return ("native", lambda: iter(list(data)))
+                    return Native(lambda: iter(list(data)))
             raise Unsupported(f"super().{name} not found after {owner} for {ck}")
         return self._bind(r[0], r[1], inst if isinstance(inst, Obj) else None, ClsRef(ck), name)
 
@@ -639,17 +656,17 @@ class Interp:
             return self.eval(f.node.body, env)
         if isinstance(f, ClsRef):
             return self.construct(f, args, kw)
+        if isinstance(f, Native):
+            try:
+                return f.fn(*args, **kw)
+            except (PyRaise, Unsupported):
+                raise
+            except KeyError as e:
+                raise PyRaise("KeyError", str(e))
+            except (TypeError, ValueError, IndexError, AttributeError) as e:
+                raise PyRaise(type(e).__name__, str(e))
         if isinstance(f, tuple) and f:
             tag = f[0]
-            if tag == "native":
-                try:
-                    return f[1](*args, **kw)
-                except PyRaise:
-                    raise
-                except KeyError as e:
-                    raise PyRaise("KeyError", str(e))
-                except (TypeError, ValueError, IndexError, AttributeError) as e:
-                    raise PyRaise(type(e).__name__, str(e))
             if tag == "dcinit":
                 self.dataclass_init(f[1], args, kw)
                 return None
@@ -685,6 +702,20 @@ class Interp:
             return args[0]
         if n in ("warnings.warn",):
             return None
+        if n.startswith("operator.") and n.split(".")[1] in ("add", "sub", "mul", "truediv", "pow", "matmul") and len(args) == 2:
+            op = {"add": ast.Add(), "sub": ast.Sub(), "mul": ast.Mult(), "truediv": ast.Div(), "pow": ast.Pow(), "matmul": ast.MatMult()}[n.split(".")[1]]
+            return self.binop(op, args[0], args[1])
+        if n in ("functools.reduce", "reduce"):
+            it = list(self.iterate(args[1]))
+            if len(args) > 2:
+                acc = args[2]
+            elif it:
+                acc, it = it[0], it[1:]
+            else:
+                raise PyRaise("TypeError", "reduce() of empty iterable with no initial value")
+            for x in it:
+                acc = self.call(args[0], [acc, x], {})
+            return acc
         if n in ("inspect.signature", "signature"):
             raise Unsupported("inspect.signature (summarised through get_named_parameters)")
         return self.ext_call(n, args, kw)
@@ -757,7 +788,7 @@ class Interp:
         if b == "range":
             if all(isinstance(a, int) for a in args):
                 return range(*args)
-            raise Unsupported("range over a non-concrete bound")
+            return self.abs_range(args)
         if b == "zip":
             return list(zip(*[list(self.iterate(a)) for a in args]))
         if b == "enumerate":
@@ -798,7 +829,7 @@ class Interp:
         if b == "map":
             return [self.call(a0, [x], {}) for x in self.iterate(args[1])]
         if b == "callable":
-            return isinstance(a0, (FuncRef, Closure, Lambda, ClsRef, Ext)) or (isinstance(a0, Obj) and self.ix.method(a0.cls, "__call__") is not None)
+            return isinstance(a0, (FuncRef, Closure, Lambda, ClsRef, Ext, Native)) or (isinstance(a0, Obj) and self.ix.method(a0.cls, "__call__") is not None)
         if b in EXC_NAMES:
             return Obj(("<ext>", b), {"args": tuple(args)})
         if b == "object":
@@ -1180,7 +1211,7 @@ class Interp:
             if m is not None:
                 return bool(self.call_function(FuncRef(m, v), [], {}))
             return True
-        if isinstance(v, (ClsRef, FuncRef, Closure, Ext, Lambda)):
+        if isinstance(v, (ClsRef, FuncRef, Closure, Ext, Lambda, Native)):
             return True
         return bool(v)
 
